@@ -242,6 +242,8 @@ class Gen:
         ty, val = self.eval_const(kv['file'], name)
         if isinstance(val, bytes):
             cty = kv.get('ty', ty).replace('&[', "&'static [")
+            if cty.strip() == "&'static [u8]":
+                cty = "&'static [u8; %d]" % len(val)
             self.emit('pub const %s: %s = &[%s];' % (kv.get('as', name), cty, ', '.join('%du8' % b for b in val)), origin)
         else:
             self.emit(f'pub const {kv.get("as", name)}: {kv.get("ty", ty)} = {rules.lit(val)};', origin)
@@ -308,6 +310,24 @@ class Gen:
             it = rs.find_fn(fsrc, kv['name'], kv.get('impl'), kv['file'], kv.get('mod'))
         except LookupError as e:
             raise Undecided(f'lost anchor for {fid}: {e}')
+        if 'region_start' in kv:
+            # a region of the function (consecutive whole lines, anchored by regexes) becomes the body of a wrapper
+            # whose signature binds the free variables; `tail=` returns named locals (glue declared in DESIGN.md 2.2)
+            lines = fsrc.split('\n')
+            lo, hi = it.line_start - 1, it.line_end
+            st = [k for k in range(lo, hi) if re.search(kv['region_start'], lines[k])]
+            if len(st) != 1:
+                raise Undecided(f'{fid}: region start /{kv["region_start"]}/ matches {len(st)} lines')
+            en = [k for k in range(st[0], hi) if re.search(kv['region_end'], lines[k])]
+            if not en:
+                raise Undecided(f'{fid}: region end /{kv["region_end"]}/ not found')
+            a, b = st[0], en[0]
+            start_idx = sum(len(l) + 1 for l in lines[:a])
+            end_idx = sum(len(l) + 1 for l in lines[:b + 1])
+            region = fsrc[start_idx:end_idx]
+            tail = kv.get('tail', '')
+            synth = fsrc[:start_idx] + '{' + region.rstrip('\n') + ' ' + tail + '}' + fsrc[end_idx:]
+            it = rs.Item(synth, start_idx, start_idx, start_idx + len('{' + region.rstrip('\n') + ' ' + tail + '}'), kv['file'])
         foreign = self._foreign > 0
         fn = {'id': fid, 'props': props, 'file': kv['file'], 'name': kv['name'],
               'repo_lines': [it.line_start, it.line_end], 'sha256': sha(it.text), 'rule_hits': {},
